@@ -67,29 +67,92 @@ func genMixedFields(r *rng, sc fieldScenario, n int) []modbus.Field {
 	return fields
 }
 
-func memberEntries(fields []modbus.Field, members []modbus.Field, regs *packet.Registers) V {
-	es := make([]V, 0, len(members))
-	for _, m := range members {
-		f := m
-		id := fieldID(fields, f)
-		es = append(es, guardEntry(id, func() V {
-			v, err := f.ExtractFrom(regs)
-			if err != nil {
-				return L(I(id), I(1))
-			}
-			return L(I(id), I(0), projFieldValue(v))
-		}))
+// heldCall / heldMember keep what ExtractFields / Field.ExtractFrom returned without looking at
+// the values
+type heldCall struct {
+	vals     []modbus.FieldValue
+	err      error
+	panicked bool
+}
+
+func (h *heldCall) run(q modbus.BuilderRequest, resp packet.Response, cont bool) {
+	defer func() {
+		if recover() != nil {
+			h.panicked = true
+		}
+	}()
+	h.vals, h.err = q.ExtractFields(resp, cont)
+}
+func (h *heldCall) proj(fields []modbus.Field) V {
+	if h.panicked {
+		return vPanic()
+	}
+	return projExtraction(fields, h.vals, h.err)
+}
+
+type heldMember struct {
+	f        modbus.Field
+	v        interface{}
+	err      error
+	panicked bool
+}
+
+func memberRaw(members []modbus.Field, regs *packet.Registers) []heldMember {
+	out := make([]heldMember, len(members))
+	for i, m := range members {
+		out[i].f = m
+		func() {
+			defer func() {
+				if recover() != nil {
+					out[i].panicked = true
+				}
+			}()
+			f := m
+			out[i].v, out[i].err = f.ExtractFrom(regs)
+		}()
+	}
+	return out
+}
+func memberProj(fields []modbus.Field, ms []heldMember) V {
+	es := make([]V, 0, len(ms))
+	for _, m := range ms {
+		id := fieldID(fields, m.f)
+		switch {
+		case m.panicked:
+			es = append(es, L(I(id), I(2)))
+		case m.err != nil:
+			es = append(es, L(I(id), I(1)))
+		default:
+			es = append(es, L(I(id), I(0), projFieldValue(m.v)))
+		}
 	}
 	return vList(es)
 }
 
-func guardEntry(id int, f func() V) (res V) {
-	defer func() {
-		if r := recover(); r != nil {
-			res = L(I(id), I(2))
+// genLongStrings: 2..5 strings of 65..160 bytes (and one short one) on one device, close together
+func genLongStrings(r *rng, sc fieldScenario) []modbus.Field {
+	n := 2 + r.intn(4)
+	base := uint16(r.intn(65000))
+	fields := make([]modbus.Field, 0, n+1)
+	for i := 0; i < n; i++ {
+		f := mkField(i, sc.servers[0], sc.units[0], base+uint16(r.intn(30)), modbus.FieldTypeString, uint8(65+r.intn(96)))
+		if r.intn(3) == 0 {
+			f.Address = base + uint16(200*(1+r.intn(2))) // another request of the same device
 		}
-	}()
-	return f()
+		f.ByteOrder = packet.ByteOrder([]uint8{0, 1, 2, 5, 6}[r.intn(5)])
+		fields = append(fields, f)
+	}
+	return append(fields, mkField(n, sc.servers[0], sc.units[0], base+3, modbus.FieldTypeString, uint8(1+r.intn(20))))
+}
+
+// textSeed: a memory seed for which the device (server, unit) holds printable text (mem_word mode 0)
+func textSeed(r *rng, server string, unit uint8) uint64 {
+	for {
+		ms := uint64(r.intn(65536))
+		if devSeed(ms, server, unit)&3 == 0 {
+			return ms
+		}
+	}
 }
 
 func reversedFields(fs modbus.Fields) modbus.Fields {
@@ -148,27 +211,32 @@ func extractSeqCase(r *rng, target int, fields []modbus.Field, ms uint64, trunca
 			qrev, qrot := q, q
 			qrev.Fields = reversedFields(q.Fields)
 			qrot.Fields = rotatedFields(q.Fields, rot)
-			outs := make([]V, 0, 8)
-			for _, step := range []struct {
+			steps := []struct {
 				req  modbus.BuilderRequest
 				cont bool
-			}{{q, false}, {q, true}, {q, false}, {q, true}, {qrev, false}, {qrev, true}, {qrot, false}, {qrot, true}} {
-				st := step
-				outs = append(outs, guard(func() V {
-					vals, e := st.req.ExtractFields(resp, st.cont)
-					return projExtraction(fields, vals, e)
-				}))
+			}{{q, false}, {q, true}, {q, false}, {q, true}, {qrev, false}, {qrev, true}, {qrot, false}, {qrot, true}}
+			raws := make([]heldCall, len(steps))
+			for j, st := range steps {
+				raws[j].run(st.req, resp, st.cont)
 			}
 			var shared V
+			var m1, m2, m3 []heldMember
 			if rr, ok := resp.(modbus.RegistersResponse); !ok {
 				shared = L(I(7))
 			} else if regs, e := q.AsRegisters(rr); e != nil {
 				shared = L(I(1))
 			} else {
-				s1 := memberEntries(fields, q.Fields, regs)
-				s2 := memberEntries(fields, qrev.Fields, regs)
-				s3 := memberEntries(fields, q.Fields, regs)
-				shared = L(s1, s2, s3)
+				m1 = memberRaw(q.Fields, regs)
+				m2 = memberRaw(qrev.Fields, regs)
+				m3 = memberRaw(q.Fields, regs)
+			}
+			// only now are the values looked at: every result was held across all later calls
+			outs := make([]V, 0, len(steps))
+			for j := range raws {
+				outs = append(outs, raws[j].proj(fields))
+			}
+			if shared == nil {
+				shared = L(memberProj(fields, m1), memberProj(fields, m2), memberProj(fields, m3))
 			}
 			descs = append(descs, vList(append(head, B(before), B(reply), vList(outs), shared)))
 		}
@@ -216,6 +284,11 @@ func streamExtractSeq(seed uint64, thorough bool) {
 		if r.bool() {
 			fields = addSiblings(r, fields, 30)
 		}
-		extractSeqCase(r, target, fields, uint64(r.intn(65536)), r.intn(3) == 0, r.intn(7))
+		ms := uint64(r.intn(65536))
+		if r.intn(8) == 0 { // long text strings: results of one read held across the next long read
+			fields = genLongStrings(r, sc)
+			ms = textSeed(r, fields[0].ServerAddress, fields[0].UnitID)
+		}
+		extractSeqCase(r, target, fields, ms, r.intn(3) == 0, r.intn(7))
 	}
 }
